@@ -226,7 +226,8 @@ class Sim(object):
 
         if self.policy in ('eager', 'rr') and 'deliver' in acts:
             choice = 'deliver'
-        elif self.policy == 'lazy' and 'iter' in acts:
+        elif self.policy == 'lazy' and 'iter' in acts and (len(acts) == 1 or rng.random() < 0.9):
+            # a slow network, but never one that stops delivering (that would be an unfair schedule)
             choice = 'iter'
         elif len(acts) == 1:
             choice = acts[0]
